@@ -79,6 +79,27 @@ check("C16", "other",
       "(parser, CLI, executor) is not claimed.",
       E2_NOTE, E2_TECH, "E2", "DESIGN.md §3 C16")
 
+check("C05", "other",
+      "Partial: the verdict of TestCase::validate for every exit status / exit code / expected code / output_stream setting with "
+      "the diff cut out as a free Boolean (wrong exit code reported as such before any diff; right stream compared; Ok ⇔ no "
+      "differences; a status without exit code never passes), and the executor's padding with Unknown outputs after an Unknown "
+      "status (whole-function symbolic run of StatefulExecutor::execute_all). Signal→status conversion of subprocess results and "
+      "the CLI's counting are not claimed here.",
+      E2_NOTE, E2_TECH, "E2", "DESIGN.md §3 C05")
+check("C14", "other",
+      "Partial: whole-function symbolic execution of StatefulExecutor::execute_all with a symbolic non-decreasing clock and a "
+      "scripted runner: the timeout handed to the runner is min(per-test timeout, time left of the document limit) — absent → 900 s, "
+      "0 → unlimited — for documents of <= 2/3 test cases and all durations; a runner timeout surfaces as Err(Timeout(Total|Index(i))) "
+      "with the right kind and the timed-out output; no Timeout error otherwise. The actual abort of a process, the Cram executor "
+      "and the CLI's reporting of later tests as skipped are not claimed.",
+      E2_NOTE + " Environment stubs (clock, runner, temp dir, tracing) as listed in the evidence.", E2_TECH, "E2", "DESIGN.md §3 C14")
+check("C15", "other",
+      "Partial (executor level): whole-function symbolic execution of StatefulExecutor::execute_all: it returns Err(Skipped(i)) "
+      "exactly for the first test whose status is Skipped or whose exit code equals its effective skip code (test config, else "
+      "document defaults, else 80), for all exit codes and skip codes, documents of <= 2/3 tests. That the CLI then reports every "
+      "test of the document as skipped and the Cram executor's twin logic are not claimed.",
+      E2_NOTE + " Environment stubs as listed in the evidence.", E2_TECH, "E2", "DESIGN.md §3 C15")
+
 NA_LIST = [
     ("C07", "Cram parser: every clause is about string contents inside one regex-calling function; out of reach of Kani (heap/regex) and of control-flow-only MIR execution."),
     ("C12", "Shell-state carry-over is implemented by a bash script; no encoding of bash semantics is available here."),
